@@ -11,12 +11,14 @@ git diff -- gaftools > "$OUT/patch.diff"
 [ -s "$OUT/patch.diff" ] || cp MUTATION/patch.diff "$OUT/patch.diff"
 cp MUTATION/demo.py "$OUT/demo.py"; cp MUTATION/NOTES.md "$OUT/NOTES.md" 2>/dev/null
 git checkout -q -- gaftools; git apply "$OUT/patch.diff" || { echo "patch does not apply in worktree"; exit 2; }
+export PYTHONPATH="$WT"   # the worktree's code, not the installed /repo
 SUITE=$(/venv/bin/python -m pytest -q -p no:cacheprovider 2>&1 | tail -1)
 /venv/bin/python MUTATION/demo.py >/dev/null 2>&1; DEMO_WITH=$?
 git checkout -q -- gaftools
 /venv/bin/python MUTATION/demo.py >/dev/null 2>&1; DEMO_WITHOUT=$?
 git apply "$OUT/patch.diff"
 echo "suite(with change): $SUITE | demo with change: exit $DEMO_WITH | demo without: exit $DEMO_WITHOUT"
+unset PYTHONPATH
 cd /repo && git apply "$OUT/patch.diff" || { echo "patch does not apply to /repo"; exit 2; }
 RES=""
 for P in "$@"; do
